@@ -156,7 +156,7 @@ class Ctx:
             if self._failing is not None:
                 self._post_failure_calls += 1
             try:
-                body(self, case)
+                run_guarded(body, self, case)
             except PropertyFailure as exc:
                 if exc.case is None:
                     exc.case = jsonable(case)
@@ -259,7 +259,7 @@ class Ctx:
                     continue
                 count += 1
                 try:
-                    body(self, case)
+                    run_guarded(body, self, case)
                 except PropertyFailure as exc:
                     if exc.case is None:
                         exc.case = jsonable(case)
@@ -282,6 +282,18 @@ class Ctx:
             "notes": self.notes,
             "exhaustive_parts": self.exhaustive_parts,
         }
+
+
+def run_guarded(body, ctx, case):
+    """body(ctx, case); a call into plotink that keeps polling a silent port for ever (sut.Runaway, raised by the
+    fake port) is a property failure - every request returns - not a harness fault."""
+    from pbt.sut import Runaway
+    try:
+        body(ctx, case)
+    except Runaway as exc:
+        fail = PropertyFailure("the call never returned: %s" % exc, case=jsonable(case), part=ctx._part)
+        fail.expensive = True
+        raise fail from None
 
 
 def load_prop(prop_id):
@@ -336,7 +348,7 @@ def replay_file(mod, ctx, path):
         raise HarnessError("%s is a replay for %s" % (path, doc.get("property")))
     ctx._part = "regress"
     try:
-        mod.replay(ctx, doc["part"], unjson(doc["case"]))
+        run_guarded(lambda c, case: mod.replay(c, doc["part"], case), ctx, unjson(doc["case"]))
     finally:
         ctx._part = None
     return doc
